@@ -92,7 +92,11 @@ def gen_pair(rng, mode):
                 rext = list(sk['ext'])
                 if mode == 'ext2' and len(rext) == 2 and rng.random() < 0.4:
                     rext.reverse()          # same external NODES, other ORDER: not conjoinable with the unreversed twin
-                rules.append({'lhs': lhs, 'nodes': [{'id': n, 'l': 'T'} for n in sk['nodes']], 'edges': edges, 'ext': rext})
+                # the nodes of a rule are a SET: each grammar may have entered them in its own order
+                norder = list(sk['nodes'])
+                if rng.random() < 0.5:
+                    rng.shuffle(norder)
+                rules.append({'lhs': lhs, 'nodes': [{'id': n, 'l': 'T'} for n in norder], 'edges': edges, 'ext': rext})
         if mode in ('clash', 'clash3') and gi == 0:
             els['<X,Y>'] = {'t': True, 'type': []}     # a terminal literally named like a pair
         return {'els': els, 'start': 'S', 'rules': rules}
